@@ -9,6 +9,7 @@ import (
 type Finding struct {
 	ID          string            `json:"id"`
 	Property    string            `json:"property"`
+	Also        []string          `json:"also,omitempty"` // further properties the same defect violates
 	Status      string            `json:"status"` // open | fixed
 	Matcher     map[string]string `json:"matcher"` // what identifies the failing input / call site / history
 	Description string            `json:"description"`
@@ -46,7 +47,7 @@ func (k *KnownFindings) Open(prop, kind string) []Finding {
 	var out []Finding
 
 	for _, f := range k.Findings {
-		if f.Status != "open" || f.Property != prop {
+		if f.Status != "open" || !f.concerns(prop) {
 			continue
 		}
 
@@ -58,6 +59,20 @@ func (k *KnownFindings) Open(prop, kind string) []Finding {
 	}
 
 	return out
+}
+
+func (f Finding) concerns(prop string) bool {
+	if f.Property == prop {
+		return true
+	}
+
+	for _, a := range f.Also {
+		if a == prop {
+			return true
+		}
+	}
+
+	return false
 }
 
 // OpenIDs returns the ids of open findings of a property (any kind).
